@@ -3,6 +3,8 @@ package main
 // Block-level symbolic execution: control flow, loops cut at invariants, instructions.
 
 import (
+	"go/parser"
+	"go/ast"
 	"os"
 	"fmt"
 	"go/token"
@@ -195,6 +197,7 @@ func (x *Exec) loopEntry(s *State, b *ssa.BasicBlock, ord int) bool {
 	fc := x.contractOf(fr.fn)
 	invs := loopClauses(fc, "invariant", ord)
 	decs := loopClauses(fc, "decreases", ord)
+	x.applyInstances(s, loopClauses(fc, "apply", ord))
 	for i, cl := range invs {
 		env := x.specEnvFor(s, "loop invariant")
 		t, err := env.evalBool(cl.Expr)
@@ -243,6 +246,7 @@ func (x *Exec) loopEntry(s *State, b *ssa.BasicBlock, ord int) bool {
 			s.assume(t)
 		}
 	}
+	x.applyInstances(s, loopClauses(fc, "apply", ord))
 	var ms []T
 	for _, cl := range decs {
 		env := x.specEnvFor(s, "loop decreases")
@@ -276,6 +280,7 @@ func (x *Exec) loopBackEdge(s *State, b *ssa.BasicBlock, ord int) {
 	}
 	invs := loopClauses(fc, "invariant", ord)
 	decs := loopClauses(fc, "decreases", ord)
+	x.applyInstances(s, loopClauses(fc, "apply", ord))
 	for i, cl := range invs {
 		env := x.specEnvFor(s, "loop invariant")
 		t, err := env.evalBool(cl.Expr)
@@ -299,6 +304,37 @@ func (x *Exec) loopBackEdge(s *State, b *ssa.BasicBlock, ord int) {
 			z = IntLit(0)
 		}
 		x.oblige(s, "decreases", fmt.Sprintf("loop%d#%s", ord, clauseLabel(cl, i)), And(x.le(z, ms[i]), x.lt(v, ms[i])), b.Instrs[0].Pos(), cl.Props)
+	}
+}
+
+// applyInstances assumes instances of defining equations of specification functions
+// (`instance NAME(params) = body` in the contract file) at the arguments given by `apply NAME(args)`.
+func (x *Exec) applyInstances(s *State, cls []*Clause) {
+	for _, cl := range cls {
+		ex, err := parser.ParseExpr(cl.Expr)
+		if err != nil {
+			x.unsupported("apply: %v", err)
+			continue
+		}
+		call, ok := ex.(*ast.CallExpr)
+		if !ok {
+			x.unsupported("apply needs NAME(args): %s", cl.Expr)
+			continue
+		}
+		id, _ := call.Fun.(*ast.Ident)
+		if id == nil || x.p.Ctr.Defines[id.Name] == nil || !x.p.Ctr.Defines[id.Name].Axiom {
+			x.unsupported("apply: %s is not declared with `instance`", cl.Expr)
+			continue
+		}
+		env := x.specEnvFor(s, "apply")
+		t, err := env.evalBool(cl.Expr)
+		if err != nil {
+			x.unsupported("apply %s: %v", cl.Expr, err)
+			continue
+		}
+		s.assume(t)
+		d := x.p.Ctr.Defines[id.Name]
+		x.assumed["defining equation of a specification function (instance "+d.Name+"): "+d.Body] = true
 	}
 }
 
